@@ -54,12 +54,37 @@ fn fire(j: usize) {
         }
     }
 }
+/// C11 lag instances: a burst of BURST stored appends (context 0) lands in the first gap after
+/// subscribe, before the live task is polled for the first time; the model's broadcast ring
+/// holds 4, so the follower has lagged.
+pub const BURST: usize = 5;
+pub static mut BURST_ON: bool = false;
+#[allow(static_mut_refs)]
+fn fire_burst() {
+    unsafe {
+        let mut k = 0;
+        while k < BURST {
+            env::scru::force_next(A1 + (k as u128) * TS);
+            if let Some(s) = &PLAN.store {
+                let r = s.append(Frame { topic: "a".to_string(), context_id: sid(0), id: sid(0), hash: None, meta: None, ttl: None });
+                if r.is_err() {
+                    nd::assume(false);
+                }
+                core::mem::forget(r);
+            }
+            k += 1;
+        }
+    }
+}
 /// one scheduling point: appends whose slot has come fire here, in order
 #[allow(static_mut_refs)]
 pub fn tick() {
     unsafe {
         let now = PLAN.yc;
         PLAN.yc += 1;
+        if BURST_ON && now == 0 {
+            fire_burst();
+        }
         if PLAN.at[0] == now {
             fire(0);
         }
@@ -200,7 +225,9 @@ pub fn p_follow<const NH: usize, const NA: usize, const MODE: u8, const AT1: u32
     unsafe {
         PLAN = Plan { yc: 0, at: [u32::MAX; 2], fired: [false; 2], ctx: [0; 2], eph: [false; 2], store: None };
     }
-    env::fjall::set_limit(NH + NA + 1);
+    let burst = MODE & 4 != 0;
+    unsafe { BURST_ON = burst };
+    env::fjall::set_limit(NH + NA + 1 + if burst { BURST } else { 0 });
     let snap = bit(10);
     env::fjall::set_snapshot_iters(snap);
     let sut = mk_store(4);
@@ -327,7 +354,11 @@ pub fn p_follow<const NH: usize, const NA: usize, const MODE: u8, const AT1: u32
         }
         i += 1;
     }
-    if MODE & 1 == 0 {
+    if burst {
+        // tail follower, nothing of history; the burst overflowed the ring before the first poll
+        hx_check!(g == 0 || !scoped, "C06 a follower scoped to one context is never sent frames of another, also when it lagged");
+        hx_check!(g == 0 && stream_closed, "C11 a follower that cannot keep up has its stream ended: it never continues past a frame it did not deliver");
+    } else if MODE & 1 == 0 {
         hx_check!(g == expect_n, "C03 a follower receives every in-scope frame after its start position exactly once (none lost, none duplicated, none from another context)");
         hx_check!(got[0] == want[0] && got[1] == want[1] && got[2] == want[2] && got[3] == want[3], "C03 frames are delivered in increasing id order across the history->live hand-off");
         if !tail {
@@ -352,10 +383,11 @@ pub fn p_follow<const NH: usize, const NA: usize, const MODE: u8, const AT1: u32
             hx_check!(stream_closed, "C11 the stream ends once the limit is reached");
         }
     }
-    hx_cover!(unsafe { PLAN.fired[0] } && (NA < 2 || unsafe { PLAN.fired[1] }) && log.n >= 1, "the schedule ran to quiescence: every planned append fired and something was delivered");
+    hx_cover!(burst || (unsafe { PLAN.fired[0] } && (NA < 2 || unsafe { PLAN.fired[1] }) && log.n >= 1), "the schedule ran to quiescence: every planned append fired and something was delivered");
     let mon = env::trace::mon();
-    hx_check!(mon.broadcasts as usize == NA, "C11 synthetic frames are never broadcast: only the appends are");
-    hx_check!(mon.commits as usize <= NA, "C11 synthetic frames are never stored");
+    let nb = NA + if burst { BURST } else { 0 };
+    hx_check!(mon.broadcasts as usize == nb, "C11 synthetic frames are never broadcast: only the appends are");
+    hx_check!(mon.commits as usize <= nb, "C11 synthetic frames are never stored");
     unsafe {
         sched::YIELD_HOOK = None;
         core::mem::forget(PLAN.store.take());
@@ -373,6 +405,8 @@ crate::scenarios! {
     unwind 50;
     nul_free_topics;
     // <NH, NA, MODE, AT1, AT2, CFG>
+    p_lag_scoped => p_follow::<0, 0, 4, 99, 99, 0x7>();
+    p_lag_all => p_follow::<0, 0, 4, 99, 99, 0x1>();
     p_follow_11_a0_c0 => p_follow::<1, 1, 0, 0, 99, 0x0>();
     p_follow_11_a0_c400 => p_follow::<1, 1, 0, 0, 99, 0x400>();
     p_follow_11_a0_c100 => p_follow::<1, 1, 0, 0, 99, 0x100>();
